@@ -46,7 +46,10 @@ def run_corpus(chk, exe, relevant=None):
     report_lines(chk, rep, relevant, "corpus")
 
 
-def report_lines(chk, rep, relevant, where, max_witness=5):
+STATEFUL = ("cc ", "pn ", "pp ", "oracle ")
+
+
+def report_lines(chk, rep, relevant, where, max_witness=5, transcript=None):
     """Turn SPEC / MON / CORR lines of a line-mode driver report into witnesses / broken-correspondence problems."""
     n = {"spec": 0, "corr": 0, "mon": 0}
     for l in rep["SPEC"]:
@@ -60,13 +63,21 @@ def report_lines(chk, rep, relevant, where, max_witness=5):
         n["spec"] += 1
         if n["spec"] <= max_witness:
             names = [MSG_CELLS[i] if (p[1].startswith("msg ") and i < len(MSG_CELLS)) else "cell %d" % i for i in rel]
-            chk.add_witness("spec", p[1], "implementation differs from the specification in %s: impl=%s spec=%s (%s)" % (
-                names, [p[2][i] if i < len(p[2]) else None for i in rel], [p[3][i] if i < len(p[3]) else None for i in rel], where))
+            det = "implementation differs from the specification in %s: impl=%s spec=%s (%s)" % (
+                names, [p[2][i] if i < len(p[2]) else None for i in rel], [p[3][i] if i < len(p[3]) else None for i in rel], where)
+            ln = re.match(r"\w+ (\d+) ", l)
+            if transcript and p[1].startswith(STATEFUL) and ln:
+                chk.add_history_witness("spec", p[1], det, transcript, int(ln.group(1)))
+            else:
+                chk.add_witness("spec", p[1], det)
     for l in rep["MON"]:
         n["mon"] += 1
         if n["mon"] <= max_witness:
             m = re.match(r"MON (\d+) (.*)$", l)
-            chk.add_witness("mon", m.group(2) if m else l, "trace monitor rejected the implementation's trace (%s)" % where)
+            if transcript and m:
+                chk.add_history_witness("mon", m.group(2), "trace monitor rejected the implementation's trace (%s)" % where, transcript, int(m.group(1)))
+            else:
+                chk.add_witness("mon", m.group(2) if m else l, "trace monitor rejected the implementation's trace (%s)" % where)
     for l in rep["CORR"]:
         p = parse_report_line(l)
         if not p:
@@ -197,7 +208,7 @@ def c02(chk):
 
 def c03(chk):
     chk.extract(("messageTypes", "timeCodeTypes"))
-    chk.proofs(["Midi.Props.C03"])
+    chk.proofs(["Midi.Props.C03", "Midi.Props.C03S"])
     # a deviation from the MIDI table that all implementations share is not a C03 violation (it is C01/C02's);
     # the oracle here is (a) pairwise agreement of the four implementations on the same bytes and (b) the one
     # permitted difference: StructuredShortMessage's own data bytes are the canonical ones
@@ -279,7 +290,7 @@ def lines_run(chk, exe, gen_args, name, relevant=None, stateful=False):
     chk.cov["evaluations"] += st.get("evaluations", rep["summary"]["lines"])
     chk.cov["distinct_nontrivial"] += st.get("nontrivial", 0)
     chk.cov["traces_validated_against_impl"] += rep["summary"]["lines"]
-    report_lines(chk, rep, relevant, name)
+    report_lines(chk, rep, relevant, name, transcript=tr if stateful else None)
     return rep
 
 
@@ -303,7 +314,7 @@ def sample_from(chk, name, n=3):
 
 def c04(chk):
     chk.extract(("newtypes", "conversions", "features", "controllerNumbers"))
-    chk.proofs(["Midi.Props.C04"])
+    chk.proofs(["Midi.Props.C04", "Midi.Props.C04S"])
     exe = chk.cargo_build("std")
     if exe is not None:
         run_corpus(chk, exe)
@@ -600,10 +611,25 @@ REGISTRY = {"C18": c18, "C19": c19, "C12": c12, "C13": c13, "C14": c14, "C15": c
 
 def replay(pid, path):
     """Re-run the requests stored in a replay file against the current tree and print impl / model / spec."""
+    if path.endswith(".tr"):
+        chk = Check(pid, "quick", 1)
+        feats = "with_serde" if pid == "C19" else "std"
+        exe = chk.cargo_build(feats)
+        sh(["lake", "build", "driver"], cwd=LEAN)
+        with open(path) as f:
+            p = subprocess.run([exe, "eval"], stdin=f, stdout=subprocess.PIPE, text=True)
+        q = subprocess.run([DRIVER], input=p.stdout, stdout=subprocess.PIPE, text=True)
+        tail = p.stdout.splitlines()[-6:]
+        print("\n".join(tail))
+        print(q.stdout, end="")
+        return 1 if re.search(r"^(SPEC|MON)", q.stdout, flags=re.M) else 0
     data = json.load(open(path))
     chk = Check(pid, "quick", data.get("seed", 1))
-    exe = chk.cargo_build("std")
+    exe = chk.cargo_build("with_serde" if pid == "C19" else "std")
     rc, out, _ = sh(["lake", "build", "driver"], cwd=LEAN)
+    hist = [w["history"] for w in data.get("witnesses", []) if w.get("history")]
+    if hist:
+        return replay(pid, hist[0])
     reqs = [w["witness"] for w in data.get("witnesses", []) if w.get("witness")]
     if not reqs:
         print("replay file names no input:", data.get("no_longer_checks"))
